@@ -21,7 +21,8 @@ RULE = ('histories: Kekule seed molecule (corpus <= 30 atoms, curated, construct
         'plus (exhaustive tier) every ordered pair of concrete operations (~145 per seed) on 8 seeds of <= 4 atoms, once with all values '
         'read after every step and once with single rotating reads before and between (quick: 1/40 slice rotating with the seed). '
         'half of the random histories likewise read only at the drawn read steps and at the end. '
-        'non-trivial = history has read -> mutate -> read on the same value; distinct by operation list')
+        'non-trivial = history has read -> mutate -> read on the same value; distinct by operation list'
+        '; also: derived-stereo: copy / substructure / union results denote the configuration of the source.')
 ASSUMPTIONS = ['edits are applied to Kekule forms only (aromatic forms are documented as unsupported for editing)',
                'canonical-string comparison is skipped (counted) where the C01 symmetry oracle places the molecule in a documented gap or known finding',
                'valence-invalid intermediate states are allowed; an undefined value must be undefined (same exception type) in the rebuilt molecule too']
